@@ -1,5 +1,7 @@
-(* placeholder; regenerated by harness/c04_sim.py *)
+(* REGENERATED from src/mxlpy/simulator.py and src/mxlpy/integrators/int_scipy.py by harness/c04_sim.py;
+   do not edit.  An unrecognised shape yields *Unknown / false / 0, which breaks C04_facts_pinned and
+   C14_facts_pinned. *)
 From Coq Require Import NArith.
 From Sim Require Import Integrator.
 Definition gen_sim_facts : sim_facts :=
-  mkSimFacts FrameAbs CmpLe FrameAbs CmpLe CmpGe true true false true false 100%N 1000%N CmpLe CmpGt CmpLe true.
+  mkSimFacts FrameMixed CmpLe FrameMixed CmpLe CmpGe true true false true false 100%N 1000%N CmpLe CmpGt CmpLe false true.
